@@ -1,5 +1,5 @@
 #!/bin/sh
-# usage: tools/seed_verify.sh <PID> <i> [extra check ids...]
+# usage: [DEST_I=<n>] tools/seed_verify.sh <PID> <i> [extra check ids...]   (DEST_I: archive as <PID>-<n> instead of <PID>-<i>)
 # Confirms an independently produced property-breaking change (from /tmp/seed_<PID>/SEED<i>.diff + SEED<i>_demo.py):
 #   applies to a scratch worktree of /repo HEAD, demo fails with / passes without, pinned tests still pass,
 # then runs the named checks (default: <PID>, quick tier) against the changed tree and stores everything under /verif/seeded/.
@@ -7,7 +7,7 @@ set -u
 pid=$1; i=$2; shift 2
 checks="$pid $*"
 src=/tmp/seed_$pid
-id="$pid-$i"
+id="$pid-${DEST_I:-$i}"
 dest=/verif/seeded/$id
 wt=/tmp/vseed_$id
 [ -f "$src/SEED$i.diff" ] || { echo "no $src/SEED$i.diff"; exit 2; }
